@@ -803,8 +803,19 @@ func runC19(w *World, r *Report) {
 					}
 				}
 				guarded := hasGuard(in.Block(), func(g guard) bool { return g.pol && g.cond == skStore.Val })
-				if rangesValues && guarded {
+				// … and under nothing else (a further conjunct would leave some skipped channels with their streams open)
+				extra := extraGuards(in.Block(), func(g guard) bool { return g.cond == skStore.Val }, guardIsLoopCond(rs), func(g guard) bool {
+					e, ok := g.cond.(*ssa.Extract)
+					if !ok {
+						return false
+					}
+					_, isTA := e.Tuple.(*ssa.TypeAssert)
+					return isTA
+				})
+				if rangesValues && guarded && len(extra) == 0 {
 					good = true
+				} else if len(extra) > 0 {
+					det = "the close of the stored values is further restricted by " + strings.Join(extra, " && ")
 				}
 			})
 		}
